@@ -117,6 +117,17 @@ Theorem C12_names_all_hides_partial : forall s c nick ch co r r',
     h_out r' = mine cfg i (body' ++ [rpl_endofnames (client_name c) (lit "*")]).
 Proof. exact (names_all_hides cfg i). Qed.
 
+(* WHOIS - explicit nicks, comma lists, wildcard masks - from a client sharing no channel with an invisible user: the same
+   lines, up to the order of the answered users, as in the world where that user is not connected *)
+Theorem C12_whois_hides_invisible_partial : forall s c nick viewer masks n u r r',
+  c_nick c = Some nick -> users s !! nick = Some viewer -> n <> nick -> users s !! n = Some u ->
+  um_invisible (u_modes u) = true -> sets_disjoint (u_chans u) (u_chans viewer) = true ->
+  process_whois cfg i s c None masks = Ok r -> process_whois cfg i (without_user n s) c None masks = Ok r' ->
+  exists body body', body ≡ₚ body' /\
+    h_out r = mine cfg i (body ++ [rpl_endofwhois (client_name c) (Str.join [c_comma] masks)]) /\
+    h_out r' = mine cfg i (body' ++ [rpl_endofwhois (client_name c) (Str.join [c_comma] masks)]).
+Proof. exact (whois_hides_invisible cfg i). Qed.
+
 End C12.
 
 Print Assumptions C12_list_explicit_partial.
@@ -132,3 +143,4 @@ Print Assumptions C12_who_entry_of_invisible_is_empty_partial.
 Print Assumptions C12_who_wildcard_hides_invisible_partial.
 Print Assumptions C12_who_nick_hides_invisible_partial.
 Print Assumptions C12_names_all_hides_partial.
+Print Assumptions C12_whois_hides_invisible_partial.
